@@ -59,6 +59,7 @@ class Norm:
         self.dt_attrs = {b'created', b'si-expires'} if lid == 1301 else {b'timestamp'} if lid == 1701 else set()
         self.syncml = lid in (2001, 2101, 2201)
         self.strict_lineends = False
+        self.dst_binary_raw = False       # the right-hand side carries opaque octets, not their base64 text (C06)
 
     def same_name(self, a, b):
         a, b = local(a), local(b)
@@ -131,7 +132,7 @@ def parse_dt(v):
     return tuple(int(x) for x in m.groups()) if m else None
 
 
-def trim_stream(evs, keep_ws, binary=()):
+def trim_stream(evs, keep_ws, binary=(), raw=False):
     """leading/trailing white space trimmed and white-space-only text dropped unless preserved;
     the content of binary-flagged elements is data, never white space"""
     if keep_ws:
@@ -144,7 +145,9 @@ def trim_stream(evs, keep_ws, binary=()):
             stack.pop()
         if e[0] == 'C':
             if stack and stack[-1] in binary:
-                if e[1]:
+                # raw: the opaque octets themselves (any octets are data); otherwise base64 text, where text
+                # that carries no octets at all (white space only) denotes the empty content
+                if e[1] and (raw or e[1].strip(WS)):
                     out.append(e)
                 continue
             t = e[1].strip(WS)
@@ -196,7 +199,7 @@ def excuses_scoped(norm, src):
             if stack:
                 stack.pop()
         else:
-            if norm.syncml and stack and stack[-1] == b'Type' and embedded_at is None and \
+            if norm.syncml and len(stack) >= 2 and stack[-1] == b'Type' and stack[-2] == b'Meta' and embedded_at is None and \
                     e[1].strip(WS).lower() in (b'application/vnd.syncml-devinf+xml', b'application/vnd.syncml.dmtnds+xml'):
                 n_labels += 1
             if norm.syncml and stack and stack[-1] == b'Type' and e[1] != e[1].strip(WS) and \
@@ -267,7 +270,7 @@ def compare(norm, src, dst, keep_ws):
 
 def compare_at(norm, src, dst, keep_ws):
     """None when equal, else (description of the first difference, local name of the element it lies in)."""
-    a, b = trim_stream(src, keep_ws, norm.binary), trim_stream(dst, keep_ws, norm.binary)
+    a, b = trim_stream(src, keep_ws, norm.binary), trim_stream(dst, keep_ws, norm.binary, raw=norm.dst_binary_raw)
     stack = []
     i = j = 0
     while i < len(a) and j < len(b):
